@@ -4,6 +4,7 @@ import (
 	"fmt"
 	"go/token"
 	"go/types"
+	"os"
 	"sort"
 	"strings"
 
@@ -345,14 +346,69 @@ func ruleInterruptUnwind(c *Ctx, r *R) {
 		r.undecided("entries", "-", "UNRESOLVED evaluator entry functions")
 		return
 	}
+	// the invocation of a function object is inside the evaluator as well (what it calls runs as part of a script)
+	for _, fn := range funcs {
+		if fn.Name() == "call" && fn.Signature.Recv() != nil && typeStr(fn.Signature.Recv().Type()) == "*object" {
+			entries[fn] = true
+		}
+	}
+	// unwrappers: functions that defer a handler with an unwrapping exit (catchPanic): what runs below one of them - the
+	// function it is handed, too - is not the outermost handler
+	unwrappers := map[*ssa.Function]bool{}
+	if marker != nil {
+		for _, fn := range funcs {
+			if !callsRecover(fn) || fn == wrapHandler {
+				continue
+			}
+			for _, e := range simulateHandler(fn, marker) {
+				if e.kind == "unwrap" {
+					for _, d := range deferrersOf(c, fn) {
+						unwrappers[d] = true
+					}
+				}
+			}
+		}
+	}
+	handedToUnwrapper := func(f *ssa.Function) bool {
+		p := f.Parent()
+		if p == nil {
+			return false
+		}
+		for _, b := range p.Blocks {
+			for _, ins := range b.Instrs {
+				ci, ok := ins.(ssa.CallInstruction)
+				if !ok || !unwrappers[ci.Common().StaticCallee()] {
+					continue
+				}
+				for _, a := range ci.Common().Args {
+					if mc, ok := a.(*ssa.MakeClosure); ok && mc.Fn == ssa.Value(f) {
+						return true
+					}
+				}
+			}
+		}
+		return false
+	}
 	underAPI := func(fn *ssa.Function) bool {
 		seen := map[*ssa.Function]bool{}
-		var up func(f *ssa.Function) bool
-		up = func(f *ssa.Function) bool {
+		var up func(f, from *ssa.Function) bool
+		up = func(f, from *ssa.Function) bool {
 			if seen[f] || entries[f] {
 				return false
 			}
 			seen[f] = true
+			if f != fn && handedToUnwrapper(f) {
+				return false // an unwrapping handler lies between the API and fn on this path
+			}
+			if f != fn && unwrappers[f] {
+				own := false // reached from f's own handler: that runs after f's recover, nothing of f protects it
+				for _, h := range deferredHandlers(f) {
+					own = own || h == from
+				}
+				if !own {
+					return false
+				}
+			}
 			if f.Parent() == nil && f.Object() != nil && f.Object().Exported() {
 				if recv := f.Signature.Recv(); recv == nil {
 					return true
@@ -361,13 +417,16 @@ func ruleInterruptUnwind(c *Ctx, r *R) {
 				}
 			}
 			for cl := range callers[f] {
-				if up(cl) {
+				if up(cl, f) {
+					if os.Getenv("OTTOCHECK_APIPATH") != "" {
+						fmt.Fprintln(os.Stderr, "  apipath:", ssaFuncName(f), "<-", ssaFuncName(cl))
+					}
 					return true
 				}
 			}
 			return false
 		}
-		return up(fn)
+		return up(fn, nil)
 	}
 	what := "the marker " + typeStrOrNone(marker)
 	if marker == nil {
@@ -386,6 +445,25 @@ func ruleInterruptUnwind(c *Ctx, r *R) {
 		for _, d := range deferrersOf(c, h) {
 			api = api || underAPI(d)
 		}
+		// the guard of the API itself: a function the exported functions call directly (catchPanic). Only such a handler
+		// is at fault when it passes the marker on; a handler further down (a helper that filters script exceptions and
+		// re-panics everything else unchanged) is transparent - what is above it decides
+		apiGuard := false
+		for _, d := range deferrersOf(c, h) {
+			for cl := range callers[d] {
+				top := cl
+				for top.Parent() != nil {
+					top = top.Parent()
+				}
+				if top.Object() != nil && top.Object().Exported() {
+					if recv := top.Signature.Recv(); recv == nil {
+						apiGuard = true
+					} else if n := derefNamed(recv.Type()); n != nil && n.Obj().Exported() {
+						apiGuard = true
+					}
+				}
+			}
+		}
 		key := "handler:" + ssaFuncName(h)
 		site := c.Pos(h.Pos())
 		var bad []string
@@ -397,10 +475,33 @@ func ruleInterruptUnwind(c *Ctx, r *R) {
 				bad = append(bad, "panics with a different value at "+c.Pos(instrPos(e.at)))
 			case e.kind == "wrap":
 				bad = append(bad, "wraps the value again at "+c.Pos(instrPos(e.at)))
-			case marker != nil && api && e.kind == "same":
+			case marker != nil && api && apiGuard && e.kind == "same":
 				bad = append(bad, "re-panics the marker itself at "+c.Pos(instrPos(e.at))+" although nothing above it unwraps it: Run panics with the wrapper, not with the value the interrupt function panicked with")
 			case marker != nil && !api && e.kind == "unwrap":
 				bad = append(bad, "unwraps the marker at "+c.Pos(instrPos(e.at))+" inside the evaluator: an enclosing try statement catches the bare value")
+			}
+		}
+		// a handler under the exported API unwraps - but the API can be entered again while a script runs (a host function
+		// that calls Value.Call / Value.String / Otto.Run; a conversion the evaluator itself asks of the API): there the
+		// unwrapped value meets the try statements of the running script. The unwrap must depend on something that
+		// tells the outermost entry from a nested one, not only on the type of the recovered value.
+		if api && marker != nil {
+			for _, e := range exits {
+				if e.kind != "unwrap" {
+					continue
+				}
+				guarded := false
+				for _, b := range h.Blocks {
+					iff, ok := b.Instrs[len(b.Instrs)-1].(*ssa.If)
+					if !ok || !b.Dominates(e.at.Block()) {
+						continue
+					}
+					if !condOnRecoveredOnly(iff.Cond, 0) {
+						guarded = true
+					}
+				}
+				r.check(guarded, "nested-unwrap:"+ssaFuncName(h), c.Pos(instrPos(e.at)), "the unwrap depends on a test that tells the outermost entry from a nested one",
+					fmt.Sprintf("%s unwraps %s whenever it recovers it, but it also runs nested: the exported API it serves can be entered while a script is running (a host function calling Value.Call, Value.String or Otto.Run on the same runtime). A nested entry hands the bare value to the try statements of the running script, which treat it as a foreign panic and convert it (tryCatchEvaluate's default arm): `try { each(function(){ for(;;){} }) } catch (e) {}` with a Go `each` that uses Value.Call, interrupted with panic(halt), does not unwind Run with halt", ssaFuncName(h), what))
 			}
 		}
 		role := "inside the evaluator"
@@ -439,4 +540,45 @@ func describeExits(c *Ctx, exits []handlerExit) string {
 	}
 	sort.Strings(parts)
 	return strings.Join(parts, ", ")
+}
+
+// condOnRecoveredOnly: the condition is computed from the recovered value alone - its type (comma-ok assertion, type
+// switch), a nil test - and from nothing else (no field, no call result, no captured variable).
+func condOnRecoveredOnly(v ssa.Value, depth int) bool {
+	if depth > 6 {
+		return false
+	}
+	switch x := v.(type) {
+	case *ssa.Const:
+		return true
+	case *ssa.Extract:
+		return condOnRecoveredOnly(x.Tuple, depth+1)
+	case *ssa.TypeAssert:
+		return condOnRecoveredOnly(x.X, depth+1)
+	case *ssa.BinOp:
+		return condOnRecoveredOnly(x.X, depth+1) && condOnRecoveredOnly(x.Y, depth+1)
+	case *ssa.UnOp:
+		return x.Op != token.MUL && condOnRecoveredOnly(x.X, depth+1)
+	case *ssa.Phi:
+		for _, e := range x.Edges {
+			if !condOnRecoveredOnly(e, depth+1) {
+				return false
+			}
+		}
+		return true
+	case *ssa.Call:
+		if b, ok := x.Call.Value.(*ssa.Builtin); ok && b.Name() == "recover" {
+			return true
+		}
+		// eject() of an exception wrapper and the like: a method of the recovered value
+		if cal := x.Call.StaticCallee(); cal != nil && cal.Signature.Recv() != nil && len(x.Call.Args) == 1 {
+			return condOnRecoveredOnly(x.Call.Args[0], depth+1)
+		}
+		return false
+	case *ssa.MakeInterface:
+		return condOnRecoveredOnly(x.X, depth+1)
+	case *ssa.ChangeInterface:
+		return condOnRecoveredOnly(x.X, depth+1)
+	}
+	return false
 }
